@@ -416,5 +416,6 @@ pub fn run(tier: Tier, seed: u64) -> i32 {
         exhaustive_note: "all programs x bounds x seeds within the bounds".into(),
         e1: false,
     };
+    total.merge(crate::props::c13::api_use_part(&deadline));
     finish(meta, total, started)
 }
